@@ -1,10 +1,14 @@
 import EdpVerif.Drv.Etf
+import EdpVerif.Spec.EtfLimits
 namespace Edp.Drv
 open Edp
 
 /-- C03 oracle: `c03 <bytes> <oracle> <impl result with `~` for spaces>`.
 The Spec reads the bytes; when it accepts them as exactly one value, the library must have returned a term denoting
-that value (maps as unordered sets of entries with distinct keys); when the Spec rejects, nothing is demanded. -/
+that value (maps as unordered sets of entries with distinct keys); when the Spec rejects, nothing is demanded.
+Completeness (C03_valid_is_decoded) is judged here too: a valid encoding must have been ACCEPTED whenever it stays
+within the library's published limits (`Spec.withinTop`, Spec/EtfLimits.lean); beyond them nothing is demanded.
+`c03lim` reports on which side of the limits the bytes are, so that the harness can count (and pin) its boundary cases. -/
 def handleC03 : List String → Option String
   | ["c03", h, o, res] => some <| run do
     let b ← getHex h
@@ -12,12 +16,20 @@ def handleC03 : List String → Option String
     match Spec.parseTop orc.env b with
     | some (v, []) =>
       if !Spec.keysDistinct v then pure "ok" else  -- not a valid encoding: duplicate keys
+      if !Spec.withinTop orc.env b then pure "ok" else  -- beyond the published limits: nothing demanded
       match res.splitOn "~" with
       | ["ok", t] =>
         let t ← getTerm t
-        if Value.same v t.den then pure "ok" else pure ("FAIL spec=" ++ v.text ++ " decoded=" ++ t.den.text)
+        -- structural equality first: `Value.same` is exponential in the nesting depth of map keys
+        if v == t.den || Value.same v t.den then pure "ok" else pure ("FAIL spec=" ++ v.text ++ " decoded=" ++ t.den.text)
       | _ => pure ("FAIL spec=" ++ v.text ++ " library=" ++ res)
     | _ => pure "ok"
+  | ["c03lim", h, o] => some <| run do
+    let b ← getHex h
+    let orc := parseOracle o
+    match Spec.parseTop orc.env b with
+    | some (_, _) => pure (if Spec.withinTop orc.env b then "within" else "beyond")
+    | none => pure "invalid"
   | _ => none
 
 end Edp.Drv
